@@ -686,6 +686,64 @@ def relative_position(facts, res):
     res.floor(R, n, 2, "position -> index conversions")
 
 
+def header_coordinates(facts, res):
+    """C06.8: the grid coordinates stored in a cell / leaf header are the decoding of the index stored in the same header
+    (the list builders and the kernels may read either).  Returns True when it holds (other rules rely on it)."""
+    R = "C06.8.header-coordinates"
+    n = 0
+    ok = True
+    for cls in ("TbfCellsContainer", "TbfParticlesContainer"):
+        for fn in facts.methods_of(cls):
+            b = tbf.body(fn)
+            if b is None:
+                continue
+            tbf.link_parents(b)
+            asg = [x for x in walk(b) if x.get("k") == "BinaryOperator" and x.get("op") == "=" and strip(kids(x)[0]).get("k") in ("MemberExpr", "CXXDependentScopeMemberExpr")
+                   and strip(kids(x)[0]).get("name") in ("boxCoord", "spaceIndex")]
+            for x in asg:
+                lhs = strip(kids(x)[0])
+                rec = facts.ntext(kids(lhs)[0])
+                blk = x.get("_p")
+                while blk is not None and blk.get("k") != "CompoundStmt":
+                    blk = blk.get("_p")
+                sib = [y for y in asg if y is not x and facts.ntext(kids(strip(kids(y)[0]))[0]) == rec and any(z is y for z in walk(blk))]
+                f = tbf.rel(facts.path_of(x))
+                if lhs["name"] == "spaceIndex":
+                    if not any(strip(kids(y)[0])["name"] == "boxCoord" and (y["l"][1], y.get("b", 0)) > (x["l"][1], x.get("b", 0)) for y in sib):
+                        ok = False
+                        res.violation(R, f, fn["qname"], "index-without-coordinates@%s" % rec, x["l"][1], "`%s.spaceIndex` is written but the coordinates of the same header are not refreshed after it in the same block: header index and header coordinates disagree" % rec)
+                    continue
+                n += 1
+                rhs = strip(kids(x)[1])
+                arg = None
+                if rhs.get("k") in ("CallExpr", "CXXMemberCallExpr") and tbf.callee_name(rhs) == "getBoxPosFromIndex" and len(tbf.call_args(rhs)) == 1:
+                    arg = facts.ntext(strip(tbf.call_args(rhs)[0]))
+                srcs = [facts.ntext(strip(kids(y)[1])) for y in sib if strip(kids(y)[0])["name"] == "spaceIndex" and (y["l"][1], y.get("b", 0)) < (x["l"][1], x.get("b", 0))]
+                good = arg is not None and srcs and (arg == rec + ".spaceIndex" or arg == srcs[-1])
+                res.instance(R, "%s::%s@%d" % (cls, fn["name"], x["l"][1]), facts.loc(x), "%s.boxCoord = decode(%s); index written just before from %s" % (rec, arg, srcs[-1:] or None))
+                if not good:
+                    ok = False
+                    res.violation(R, f, fn["qname"], "coordinates-not-decoded@%s" % rec, x["l"][1],
+                                  "`%s.boxCoord` is not getBoxPosFromIndex of the index stored in the same header just before (found `%s`): the per-group list builders and kernels that read the stored coordinates would use a different cell than the stored index names" % (rec, facts.ntext(rhs)[:120]))
+        # accessors read exactly these fields of the item they are asked for
+        pairs = {"TbfCellsContainer": (("getCellSpacialIndex", "spaceIndex"), ("getCellBoxCoord", "boxCoord")),
+                 "TbfParticlesContainer": (("getLeafSpacialIndex", "spaceIndex"), ("getLeafBoxCoord", "boxCoord"))}[cls]
+        for name, fld in pairs:
+            ms = [m for m in facts.methods_of(cls) if m["name"] == name and tbf.body(m) is not None]
+            if len(ms) != 1:
+                raise AnalysisBroken("%s::%s not found" % (cls, name))
+            rets = [r for r in walk(tbf.body(ms[0])) if r.get("k") == "ReturnStmt"]
+            t = facts.ntext(strip(kids(rets[0])[0])) if len(rets) == 1 and kids(rets[0]) else ""
+            par = ms[0]["params"][0]["name"] if ms[0].get("params") else "?"
+            n += 1
+            res.instance(R, "%s::%s" % (cls, name), facts.loc(ms[0]), "returns %s" % t)
+            if not re.match(r"^objectData\.(template ?)?getViewerForBlock(Const)?<1>\(\)\.getItem\(%s\)\.%s$" % (re.escape(par), fld), t):
+                ok = False
+                res.violation(R, tbf.rel(facts.path_of(ms[0])), ms[0]["qname"], "accessor:" + name, ms[0]["l"][1], "%s does not return the `%s` field of header `%s` of block 1 (found `%s`)" % (name, fld, par, t[:120]))
+    res.floor(R, n, 7, "header coordinate writes and accessors")
+    return ok
+
+
 def run(res, tier):
     facts = tbf.scan("core")
     res.units.append("umbrella TU 'core': TbfMemoryBlock, group constructors, shipped kernels, ordering classes; witnesses c06_narrow, c06_probe")
@@ -700,6 +758,8 @@ def run(res, tier):
     grid_range(facts, res)
     res.rule("C06.7 relative position: the box corner is subtracted from the particle's coordinate before any conversion of that coordinate to the tree's coordinate type")
     relative_position(facts, res)
+    res.rule("C06.8 header coordinates: every write of a header's boxCoord is getBoxPosFromIndex of the index written to the same header just before; every index write is followed by a coordinates write; accessors return those fields")
+    header_coordinates(facts, res)
     narrowing(res, tier)
     k = constcast_lint(facts, res)
     curve_domains(facts, res)
